@@ -242,150 +242,166 @@ MetaData body {
     len Pad,
     string leftPad,
 }// trailing space")).
-Eval vm_compute in ("<<<M1766>>>" ++ check (runes_of_ascii "root packet metadata {
-    @lengthOf(options1)
-    int32 zchar @calculatedFrom(""// no comment"") `
-        `,
-    repeat calculatedFrom `it's`,//
-    match BodyLength as lengthOf {
-        3 : leftPad,
-    },
-    repeat u128,
-    char[10] chars,// @lengthOf(
-    falsey @calculatedFrom(""x y"") `{ , }`,
-    @tag(42)
-    float64 i64_,
-    u8x @calculatedFrom(""{,}"") `two words`,
-    @lengthOf(T)
-    char[255] pack `it's`,
-    match MetaDataX as i64_ {
-        //
-        """ ++ [28040; 24687]%N ++ runes_of_ascii """ : Header,
-        0 : x_y_z,
-        3 : int,
-        ""abc"" : u8x,
-    },
-}
+Eval vm_compute in ("<<<M1762>>>" ++ check (runes_of_ascii "packet
+pack
+	{ @lengthOf(
+Foo 
+    // c
+    )asx
+@lengthOf( 
+_x
 
-packet i64_ {
-    @rightPad()
-    /// triple
-    pack {
-        match MetaDataX as trueish {
-            1 : len,
-            00 : falsey,
-            """" : x,
-        },
-    },
-    @tag(1)
-    char[] int @lengthOf(metadata),
-    a1 @lengthOf(calculatedFrom),
-    @tag(7)
-    tag @lengthOf(u),
-    BodyLength @calculatedFrom(""it's"") `say ""hi""`,
-    string msg_type,
-}
+    )/// triple
+  	, u8
+x_y_z	`two words`,	repeat zchar[ 0]	roots
+`
+` 
+      // `tick` ""quote"" 'q'
+	,
 
-MetaData Logon {
-    BodyLength _x `it's`,
-    int32 body,
-}
+lengthOf  @calculatedFrom( 
+""abc""
+    )
+,@tag(	3 
+) 
+@rightPad ( 
+' ') @calculatedFrom(
 
-root packet body {
-}")).
-Eval vm_compute in ("<<<M1368>>>" ++ check (runes_of_ascii "// top
-options
-    // c0
-{ // c1
-LittleEndian =
-    // c3
-true
-    // c4
-; // c5a
-  // c5b
-} // c6
-packet // c7a
-  // c7b
-Logon // c8a
-  // c8b
-{ u8
-    // c10
-x // c11a
-  // c11b
-, // c12
-} // c13a
-  // c13b
-packet // c14a
-  // c14b
-Logout // c15
-{
-    // c16
-u16
-    // c17
-reason
-    // c18
-, // c19a
-  // c19b
-}
-    // c20
-root packet Frame { // c24
-u16 // c25a
-  // c25b
-Kind // c26
-, // c27a
-  // c27b
-u16
-    // c28
-Kind2 // c29a
-  // c29b
-, match Kind
-    // c32
-as // c33
-Body // c34
-{
-    // c35
-1 : // c37
-Logon // c38a
-  // c38b
-,
-    // c39
-[ // c40
-2 , // c42
-3
-    // c43
-, // c44
-4 ] :
-    // c47
-Logout
-    // c48
-, // c49
-100
-    // c50
+    ""1"" 
+  //x
+  // " ++ [27880; 37322]%N ++ runes_of_ascii "
+  ) repeat
+
+uint64 i64_  // trailing space 
+  `say ""hi""`  // @lengthOf(
+
+	,
+@tag(	007 )match
+	roots as  float { ""a	b"":
+    lengthOf  ,  [ 
+1
+,  // @lengthOf(
+
+""\n""
+    ,	""a\""b""
+    , ""\" ++ [233]%N ++ runes_of_ascii """
+    , ""1""
+	,	42
+
+    ] 
 :
-    // c51
-Logon // c52a
-  // c52b
+    msg_type
+    ,
+""" ++ [128512]%N ++ runes_of_ascii """:
+	Foo 
+} 
 ,
-    // c53
-} , match Kind2 // c57a
-  // c57b
-as
-    // c58
-Trailer // c59
-{ // c60
-0 // c61a
-  // c61b
-: // c62
-Logout // c63a
-  // c63b
+T //x
+{
+match
+Header as	trueish
+{ [ 
+  // `tick` ""quote"" 'q'
+	// @lengthOf(
+  0
 ,
-    // c64
-} // c65a
-  // c65b
+	3// @lengthOf(
 ,
-    // c66
-} // c67
+""{,}"" ,
+	""1""  , 00 
+,
+
+0123456789,
+""// no comment"" 
+]
+
+:As
+    ,
+    }  ,}
+
+    ,  repeat	char[
+10
+    ]
+
+    o`
+`
+
+    ,@calculatedFrom(  
+      //
+  ""`tick`""//x
+	  ) repeat
+crc { repeatCount o	,
+u8x
+	As 
+,
+	}
+
+, 
+}packet pack {  @calculatedFrom(
+    """ ++ [233]%N ++ runes_of_ascii "t" ++ [233]%N ++ runes_of_ascii """
+
+) 
+u32	f32a,}
+
+    MetaData float { u32
+    options1	, }
+	packet
+f32a
+{  }
 ")).
+Eval vm_compute in ("<<<M1920>>>" ++ check (runes_of_ascii "packet i8i8 {
+    @tag(0)
+    int32 leftPad `it's`,
+    repeat char[] Header `crlf
+    line`,
+    @calculatedFrom(""\" ++ [233]%N ++ runes_of_ascii """)
+    /// triple
+    repeat uint8 float,
+    @rightPad('\x00')
+    char[] zchar @lengthOf(leftPad) `
+    `,
+    Z9_,
+    @lengthOf(x)
+    match As as tag {
+        ""a	b"" : string_,
+        [
+            10, 7, 255, 3, 42,
+            0123456789, ""1"", """ ++ [128512]%N ++ runes_of_ascii """
+        ] : x_y_z,
+        ""CRC32"" : Z9_,
+        00 : Logon,
+    },
+    @tag(007)
+    o {
+        char Packet @lengthOf(repeatCount),
+    },
+    @lengthOf(pack)
+    float64 rootA `two words`,
+    repeat char[] BodyLength,
+}
+
+packet Z9_ {
+    match As as a1 {
+        //
+        0 : trueish,
+    },
+}
+
+root packet u8x {
+    /// triple
+    // " ++ [128512]%N ++ runes_of_ascii " emoji
+    repeat string Logon `tab	here`,// " ++ [128512]%N ++ runes_of_ascii " emoji
+}
+
+options {
+    _x = ""packet"";
+    f32a = 007
+}
+
+packet i8i8 {
+    @calculatedFrom(""CRC32"")
+    A @lengthOf(a1),
+}")).
 Eval vm_compute in ("<<<M298>>>" ++ check (runes_of_ascii "
 options  { } options
     {  uint8x =
@@ -603,33 +619,28 @@ zchar[
 string body `" ++ [233]%N ++ runes_of_ascii "` , string chars `doc` , int _x`two words`
 ,} options { Z9_ =
     uint16 ; }")).
-Eval vm_compute in ("<<<M334>>>" ++ check (runes_of_ascii "MetaData pack {
-int16 rootA `{ , }` ,
-    //	t
-    int16 // c
-x,// " ++ [27880; 37322]%N ++ runes_of_ascii "
-u32 msg_type,
-    }
-packet i64_
-    {// trailing space 
-@leftPad
-    ( '0') @rightPad ( '\x00' // packet A { u8 x, }
-)
-@lengthOf(options1	)
-    string body @lengthOf( asx) `" ++ [233]%N ++ runes_of_ascii "` ,
-    }
-options { msg_type
-    //	t
-    = 00//
-;} MetaData
-    stringy// c
-{
-    zchar MetaDataX `line1
-line2` , char[255] len `it's` , f32 pack ,
-    uint16 Foo
-`it's` , int16 i64_`two words` ,
-    // `tick` ""quote"" 'q'
-    }")).
+Eval vm_compute in ("<<<M1520>>>" ++ check (runes_of_ascii "packet Logon {
+    repeatCount {
+        BodyLength `crlf
+                line`,
+    },
+    zchar a1 `u8 x,`,
+    match Foo as Foo {
+        ""\n"" : i8i8,
+        [""abc"", ""CRC32""] : crc,
+        [
+            3, 42, 1, 255, ""x y"",
+            ""`tick`"", ""a\""b"", ""CRC32""
+        ] : repeatCount,
+        [
+            1, 007, 007, 7, 255,
+            ""\n"", ""// no comment""
+        ] : uint8x,
+        00 : f32a,
+    },
+    // a // b
+    uint16 Pad @lengthOf(uint8x) `doc`,
+}")).
 Eval vm_compute in ("<<<M1563>>>" ++ check (runes_of_ascii "packet 
 rootA  { repeat uint16
 stringy	`" ++ [233]%N ++ runes_of_ascii "`	,
@@ -776,37 +787,62 @@ Ka as	Z {1 :
 
 C	,}
 ")).
-Eval vm_compute in ("<<<M57>>>" ++ check (runes_of_ascii "packet	tag { }
-packet falsey
-    { string charz @lengthOf(
-    zchar ) ,
-string // trailing space 
-u @calculatedFrom( """ ++ [233]%N ++ runes_of_ascii "t" ++ [233]%N ++ runes_of_ascii """	) `// not a comment`
-, @leftPad( '0' )
-char[] leftPad @calculatedFrom(
-    ""a	b"")`// not a comment` , @calculatedFrom(
-    ""`tick`"" )
-    @lengthOf(roots
-) repeat MetaDataX
-, }
+Eval vm_compute in ("<<<M1268>>>" ++ check (runes_of_ascii "// top
+packet
+    // c0
+B
+    // c1
+{ // c2
+u8
+    // c3
+a // c4
+, string // c6
+s
+    // c7
+, } root // c10
+packet
+    // c11
+P // c12a
+  // c12b
+{
+    // c13
+u16
+    // c14
+L // c15a
+  // c15b
+@lengthOf( B
+    // c17
+)
+    // c18
+,
+    // c19
+B
+    // c20
+, u8 // c22a
+  // c22b
+t
+    // c23
+, // c24
+} ")).
+Eval vm_compute in ("<<<M1465>>>" ++ check (runes_of_ascii "options {
+}
 
-")).
-Eval vm_compute in ("<<<M130>>>" ++ check (runes_of_ascii "packet zchar { @lengthOf( a1
-// " ++ [128512]%N ++ runes_of_ascii " emoji
-//	t
-) i64_ @lengthOf( Header )
-`" ++ [28040; 24687; 31867; 22411]%N ++ runes_of_ascii "`, charz`" ++ [233]%N ++ runes_of_ascii "` , char[007] i64_ , tag  { u16  matchKey // " ++ [27880; 37322]%N ++ runes_of_ascii "
-,match Pad as lengthOf { [""CRC32"" ,	""abc""
-] : Packet
-,	}
-, }
-    , } MetaData body {char[
-    10 ]u128
-    `doc`
-    ,
-/// triple
-//x
-} //x")).
+MetaData string_ {
+    u32 matchKey `u8 x,`,
+    string MetaDataX,
+    uint8 Logon,
+    uint64 options1,
+    char[00] len `tab	here`,
+    u8 options1,
+}
+
+// a // b
+packet a1 {
+    chars,
+    char[] i64_ @lengthOf(stringy),
+    char T,
+    repeat i8 charz `a\`,
+}")).
 Eval vm_compute in ("<<<M308>>>" ++ check (runes_of_ascii "options { pack// `tick` ""quote"" 'q'
 = 0123456789
 }
